@@ -377,8 +377,8 @@ def gate2zx(box):
         return Z(1, 2) @ Z(1, 2, box.phase / 2)\
             >> Id(1) @ (X(2, 1) >> Z(1, 0, -box.phase / 2)) @ Id(1)
     if isinstance(box, CRx):
-        return X(1, 2) @ X(1, 2, box.phase)\
-            >> Id(1) @ (Z(2, 1) >> X(1, 0, -box.phase)) @ Id(1)
+        return Z(1, 2) @ X(1, 2, box.phase / 2) >> Id(1) @ (
+            H @ Id(1) >> Z(2, 1) >> X(1, 0, -box.phase / 2)) @ Id(1)
     if isinstance(box, quantum.CU1):
         return Z(1, 2, box.phase / 2) @ Z(1, 2, box.phase / 2)\
             >> Id(1) @ (X(2, 1) >> Z(1, 0, -box.phase / 2)) @ Id(1)
